@@ -27,7 +27,7 @@ type RenderOpts struct {
 	// semicolons, parentheses, quotes and backslashes gets its first octet written as \DDD
 	// (known finding escaped-only-token).
 	AvoidEscapedOnly bool
-	OnExcluded         func(class string)
+	OnExcluded       func(class string)
 }
 
 // LineSpan is the range of physical lines (1-based) of one item.
